@@ -552,6 +552,10 @@ class Align(Contract):
             old = env["old"][t]
             shape = [S.n(cax[d]) for d in ds]
             ov = out.values
+            fits = S.land(len(S.shape(ov)) == len(shape), *[S.shape(ov)[i] == shape[i] for i in range(min(len(shape), len(S.shape(ov))))])
+            yield "out%d:shape-follows-the-common-axes" % t, fits
+            if S.mode == "nat" and not fits:
+                continue          # (the cell clauses below are stated over that shape; natively they could not even be evaluated)
 
             def src_ok(ks, ps, ds=ds, t=t):
                 return S.land(*[S.land(0 <= p, p < S.n(env["labels"][t][d]),
